@@ -70,7 +70,7 @@ def run_worker(args: list[str], env: dict, timeout: float) -> list[dict]:
 
 
 def load_findings(prop: str) -> list[dict]:
-    path = os.path.join(VERIF, "known_findings.json")
+    path = os.environ.get("VERIF_FINDINGS") or os.path.join(VERIF, "known_findings.json")  # override: findings self-test only
     if not os.path.exists(path):
         return []
     data = json.load(open(path))
@@ -144,7 +144,7 @@ def check(prop: str, tier: str, seed: int, runs: int | None, budget_s: float | N
     # 1. reproducers of recorded findings (open: KNOWN-FINDING; fixed: permanent regression cases)
     findings = load_findings(prop)
     for f in findings:
-        path = os.path.join(VERIF, f["reproducer"])
+        path = f["reproducer"] if os.path.isabs(f["reproducer"]) else os.path.join(VERIF, f["reproducer"])
         rep = json.load(open(path))
         hs0 = rep.get("hash_seed", 0) if isinstance(rep, dict) else (rep[0].get("hash_seed", 0) if rep else 0)
         recs = exec_case_file(prop, path, hs0, extra_env)
